@@ -5,8 +5,8 @@
       projected header values (cl, ct), pieces: the received body as a list of source pieces
       [src, idx], begun, closes: what the stream double saw, raised / sendFailed: an injected
       fault really fired, renderFailed: body rendering raised the injected fault (handled by an
-      error handler: the response judged is the re-filled one, ResponseEmit!Eff; whether the
-      application's stream survived is read off `begun`), exc: an exception escaped the application callable, errors: number of
+      error handler: the response judged is the re-filled one, ResponseEmit!Eff), renderFails:
+      how many renderings raised, exc: an exception escaped the application callable, errors: number of
       protocol errors the monitor reported]
    Every trace is one initial state.  The judge is total: it consumes every event, evaluates the
    clauses of ResponseEmit (the very operators that are the invariants of the emission machine)
@@ -31,7 +31,7 @@ RE == INSTANCE ResponseEmit WITH RenderSetsType <- FALSE, BodilessByLine <- FALS
           begun <- T.begun, closes <- T.closes, raised <- T.raised, sendFailed <- T.sendFailed
 
 (* the response the clauses speak about *)
-C == IF T.renderFailed THEN RE!Eff(T.c, T.begun) ELSE T.c
+C == IF T.renderFailed THEN RE!Eff(T.c, T.renderFails >= 2, T.begun) ELSE T.c
 Faulted  == T.raised \/ T.sendFailed
 Complete == ~Faulted /\ ~T.exc
 Prefix(n) == [c |-> C, ev |-> SubSeq(T.ev, 1, n), pieces |-> <<>>, begun |-> T.begun, closes |-> 0,
